@@ -85,9 +85,14 @@ def _has_fun(w, n):
     return None
 
 
-def _ack_job(shape):
+def _ack_job(job):
+    shape, earlier = job if isinstance(job, tuple) else (job, None)
+
     def call(w, it, f):
         wk = w.new_walker("pysmt.rewritings.Ackermannizer", w.env)
+        if earlier is not None:
+            # the same instance has served another formula (sharing applications with this one) before
+            it.call(it.getattr(wk, "do_ackermannization"), [proc.build_shape(w, earlier.t)])
         return it.call(it.getattr(wk, "do_ackermannization"), [f])
 
     def post(w, f, r, facts):
@@ -129,7 +134,8 @@ def _ack_job(shape):
                                            "with these values" % (dict(zip(plain, key)), funs), rs)
         return proc.ProcResult(shape, "valid", "%d interpretations" % n, rs)
     res = proc.run_proc(shape, call, post=post)
-    return [("Ackermannizer", repr(shape), r.kind, str(r.detail), r.result) for r in res]
+    tag = repr(shape) if earlier is None else "%s on an instance that served %s before" % (repr(shape), repr(earlier))
+    return [("Ackermannizer", tag, r.kind, str(r.detail), r.result) for r in res]
 
 
 def ack_shapes():
@@ -172,7 +178,9 @@ def run(ctx):
         jobs.append(("pysmt.rewritings.PolarityCNFizer", sh))
     outs = parallel_map(_cnf_job, jobs)
     rs3 = ctx.rule("R3d", "Ackermannization: no application left; models correspond (functions over 1-bit domains)")
-    outs_a = parallel_map(_ack_job, ack_shapes())
+    ash = ack_shapes()
+    outs_a = parallel_map(_ack_job, [(sh, None) for sh in ash] + [(sh, ash[(i + 1) % len(ash)]) for i, sh in enumerate(ash)] +
+                          [(sh, ash[0]) for sh in ash[1:6]])
     for which, outs_, rule in ((None, outs, rs), (None, outs_a, rs3)):
         for res in outs_:
             for name, shape, kind, detail, result in res:
